@@ -1461,13 +1461,27 @@ STD_MUTATORS = re.compile(r'^(Vec|VecDeque|HashMap|BTreeMap|HashSet|BTreeSet|Sma
                           r'(resize|truncate|clear|push|push_back|pop_front|pop|insert|remove|remove_entry|retain|extend|take|replace|sort|dedup|drain)$')
 
 
+def module_private(fn):
+    """visible only inside its own module (or a parent module below the crate root): the kind of helper that is introduced,
+    renamed, inlined and split freely"""
+    v = fn.get('vis') or ''
+    if not v.startswith('Restricted('):
+        return False
+    m = re.search(r'~ (\w+)\[[0-9a-f]+\](.*?)\)\)$', v)
+    return bool(m and m.group(2))       # `Restricted(crate root)` = pub(crate) is not private
+
+
 def mustpass_inventory(P, files):
     """{fn qual: sorted callees that lie on EVERY success path of the function}; callees = functions of the workspace crates
     and std collection mutators"""
     out = {}
+    private_callees = set()
+    private_fns = set()
     for fn in fns_in_files(P, files):
         if fn.get('mac') or fn['kind'] == 'Closure':
             continue
+        if module_private(fn):
+            private_fns.add(fn['qual'])
         body = P.body(fn)
         by_callee = collections.defaultdict(list)
         for bi, t in body.calls():
@@ -1479,6 +1493,9 @@ def mustpass_inventory(P, files):
                 if re.search(r'(Clone::clone|fmt::|Default::default|::deref(_mut)?$|::from$|::into$|::as_ref$|::borrow)', cn):
                     continue
                 by_callee[cn].append(bi)
+                cf = P.fns.get(callee_resolved(t)) or P.fns.get(callee_path(t))
+                if cf is not None and module_private(cf):
+                    private_callees.add(cn)
         if not by_callee:
             continue
         errs = set(body.err_blocks)
@@ -1506,7 +1523,10 @@ def mustpass_inventory(P, files):
                         cur |= new
                         changed = True
             out[q] = sorted(cur)
-    return out
+    # module-private helpers are looked THROUGH (the closure above), not recorded: neither as a function with obligations nor as an
+    # obligation of its callers -- inlining, extracting or renaming one leaves the table unchanged
+    return {q: [c for c in lst if c not in private_callees] for q, lst in out.items()
+            if q not in private_fns and any(c not in private_callees for c in lst)}
 
 
 def wiring_inventory(P, files):
@@ -1598,15 +1618,16 @@ def variant_map_inventory(P, files):
                 if len(body.preds(tgt)) != 1:
                     continue
                 vals = {}
-                for x in range(len(body.B)):
-                    if body.B[x].get('cu') or not (x == tgt or body.dominates(tgt, x)):
+                # only PURE mapping arms are keyed: the arm is one straight-line block (no branch, no call) that assigns the value
+                # and joins; an arm that computes, checks or calls is not a table entry and is left to the other rules
+                if body.B[tgt]['term']['k'] != 'goto':
+                    continue
+                for st in body.B[tgt]['st']:
+                    if st['lhs']['p']:
                         continue
-                    for st in body.B[x]['st']:
-                        if st['lhs']['p']:
-                            continue
-                        v = _variant_value(P, body, st['rv'])
-                        if v:
-                            vals.setdefault(st['lhs']['l'], set()).add(v)
+                    v = _variant_value(P, body, st['rv'])
+                    if v:
+                        vals.setdefault(st['lhs']['l'], set()).add(v)
                 per_arm[tgt] = (names, vals)
             # locals that receive a value in at least two arms = the result of the match
             cnt = collections.Counter(l for _, vals in per_arm.values() for l in vals)
